@@ -615,24 +615,38 @@ func c01PerInterface(c *Ctx) {
 			continue
 		}
 		p.Instrs(func(in ssa.Instruction) {
-			call, ok := in.(*ssa.Call)
-			if !ok {
+			// an Interface handed to the result: appended, or stored into an element of a pre-sized slice
+			var el *an.Expr
+			var at ssa.Instruction = in
+			switch x := in.(type) {
+			case *ssa.Call:
+				b, ok := x.Call.Value.(*ssa.Builtin)
+				if !ok || b.Name() != "append" {
+					return
+				}
+				sl, ok := x.Type().Underlying().(*types.Slice)
+				if !ok || !strings.HasSuffix(typeStr(sl.Elem()), "config.Interface") {
+					return
+				}
+				e := p.Of(x)
+				if e.Op == an.OpAppend && len(e.Args) == 2 && e.Args[1].Op == an.OpStruct && len(e.Args[1].Args) == 1 {
+					el = e.Args[1].Args[0]
+				} else {
+					el = e
+				}
+			case *ssa.Store:
+				if _, isElem := x.Addr.(*ssa.IndexAddr); !isElem || !strings.HasSuffix(typeStr(x.Val.Type()), "config.Interface") {
+					return
+				}
+				el = p.Of(x.Val)
+			default:
 				return
 			}
-			b, ok := call.Call.Value.(*ssa.Builtin)
-			if !ok || b.Name() != "append" {
-				return
-			}
-			sl, ok := call.Type().Underlying().(*types.Slice)
-			if !ok || !strings.HasSuffix(typeStr(sl.Elem()), "config.Interface") {
-				return
-			}
+			call := at
 			n++
-			e := p.Of(call)
 			okOwn := false
-			fact := e.String()
-			if e.Op == an.OpAppend && len(e.Args) == 2 && e.Args[1].Op == an.OpStruct && len(e.Args[1].Args) == 1 {
-				el := e.Args[1].Args[0]
+			fact := el.String()
+			{
 				// the element is (a copy of) result #0 of a parseInterface call made in this iteration,
 				// for this iteration's name
 				var pcall *an.Expr
